@@ -1093,6 +1093,67 @@ func ruleIdempotent(r *Report) {
 	if n == 0 {
 		r.Missing(rule, rule+"/sites", "no destructive file-system primitive found on the recovery path")
 	}
+	// listing a directory fails once the directory is gone: on the recovery path a listing is repeatable only when the
+	// directory was (re)created before it on the same path of the caller, or its absence is tolerated
+	inScope := map[*ssa.Function]bool{}
+	for _, f := range scope {
+		inScope[f] = true
+	}
+	for _, fn := range scope {
+		pk := fnPkg(fn)
+		if pk == nil || shortPkg(pk.Path()) != "simpledb" {
+			continue
+		}
+		for _, s := range CallsIn(fn, Keys("os.ReadDir")) {
+			// absence tolerated?
+			tolerated := false
+			for _, b := range liveBlocks(fn) {
+				if _, g, _, _, ok := sentinelTest(b); ok && (g == "io/fs.ErrNotExist" || g == "os.ErrNotExist") {
+					tolerated = true
+				}
+			}
+			tolerated = tolerated || len(CallsIn(fn, Keys("os.IsNotExist"))) > 0
+			type use struct {
+				at   Site
+				path ssa.Value
+				in   *ssa.Function
+			}
+			var uses []use
+			arg := s.Call().Common().Args[0]
+			if po := paramOrigin(arg); po != nil && po.Parent() == fn {
+				idx := -1
+				for i, pr := range fn.Params {
+					if pr == po {
+						idx = i
+					}
+				}
+				for _, cs := range p.CallSitesOf(fn) {
+					if !inScope[cs.Fn] || idx < 0 {
+						continue
+					}
+					uses = append(uses, use{cs, cs.Instr.(ssa.CallInstruction).Common().Args[idx], cs.Fn})
+				}
+			} else {
+				uses = append(uses, use{s, arg, fn})
+			}
+			for _, u := range uses {
+				key := ef0uniq(fmt.Sprintf("%s/%s/os.ReadDir", rule, FuncKey(u.in)))
+				created := false
+				for _, mk := range CallsIn(u.in, Keys("os.MkdirAll")) {
+					if mk.Call().Common().Args[0] == u.path && precedes(mk, u.at) {
+						created = true
+					}
+				}
+				if guardedOffRecoveryLifted(p, fn, s, 0) {
+					r.OK(rule, key, u.at.Pos(), "guarded by walPath != \"\"; the recovery call site passes a literal without walPath")
+				} else if created || tolerated {
+					r.OK(rule, key, u.at.Pos(), "the directory that is listed was created before on this path (or its absence is tolerated)")
+				} else {
+					r.Bad(rule, key, u.at.Pos(), "a directory is listed (os.ReadDir, error returned) that a previous, killed attempt may have removed already: once an attempt has fully removed it, every later Open fails with 'no such file or directory' — the database stays unopenable")
+				}
+			}
+		}
+	}
 }
 
 var ef0count = map[string]int{}
@@ -1661,6 +1722,77 @@ func ruleWalReclaim(r *Report) {
 				sweep = true
 			}
 		}
+		// a guard in front of the sweep that compares the directory part of the path: filepath.Split leaves the trailing
+		// separator on it, so a raw comparison with a joined path never holds and the sweep is dead code
+		isSplitDir := func(x ssa.Value) bool {
+			ex, ok := x.(*ssa.Extract)
+			if !ok || ex.Index != 0 {
+				return false
+			}
+			c, ok := ex.Tuple.(*ssa.Call)
+			return ok && c.Call.StaticCallee() != nil && FuncKey(c.Call.StaticCallee()) == "path/filepath.Split"
+		}
+		eachInstr(f, func(x Site) {
+			bo, ok := x.Instr.(*ssa.BinOp)
+			if !ok || (bo.Op != token.EQL && bo.Op != token.NEQ) {
+				return
+			}
+			if bt, ok := bo.X.Type().Underlying().(*types.Basic); !ok || bt.Info()&types.IsString == 0 {
+				return
+			}
+			// the value itself (through phis, slicing and concatenation — not what a call makes of it)
+			var rawDir func(v ssa.Value, d int) bool
+			rawDir = func(v ssa.Value, d int) bool {
+				if d > 6 {
+					return false
+				}
+				if isSplitDir(v) {
+					return true
+				}
+				switch y := v.(type) {
+				case *ssa.Phi:
+					for _, e := range y.Edges {
+						if rawDir(e, d+1) {
+							return true
+						}
+					}
+				case *ssa.Slice:
+					return rawDir(y.X, d+1)
+				case *ssa.BinOp:
+					return y.Op == token.ADD && (rawDir(y.X, d+1) || rawDir(y.Y, d+1))
+				case *ssa.ChangeType:
+					return rawDir(y.X, d+1)
+				case *ssa.Call:
+					for _, a := range y.Call.Args {
+						if rawDir(a, d+1) && y.Call.StaticCallee() != nil {
+							switch FuncKey(y.Call.StaticCallee()) {
+							case "path/filepath.Clean", "path/filepath.Dir", "strings.TrimSuffix", "strings.TrimRight":
+								return true
+							}
+						}
+					}
+				}
+				return false
+			}
+			for _, o := range []ssa.Value{bo.X, bo.Y} {
+				if !rawDir(o, 0) {
+					continue
+				}
+				ckey := rule + "/" + FuncKey(f) + "/split-dir-compared-clean"
+				norm := false
+				if c, ok := o.(*ssa.Call); ok && c.Call.StaticCallee() != nil {
+					switch FuncKey(c.Call.StaticCallee()) {
+					case "path/filepath.Clean", "path/filepath.Dir", "strings.TrimSuffix", "strings.TrimRight":
+						norm = true
+					}
+				}
+				if norm {
+					r.OK(rule, ckey, x.Pos(), "the directory part of the split path is normalised before it is compared")
+				} else {
+					r.Bad(rule, ckey, x.Pos(), "the directory part filepath.Split returns keeps its trailing separator; compared raw with a joined path it is always different, the sweep over the older WAL files never runs and an auto-rotated file is replayed over newer tables after the next start")
+				}
+			}
+		})
 	}
 	if sweep {
 		r.OK(rule, key, pos.Pos(), "the flush sweeps every WAL file up to the rotated one")
